@@ -482,6 +482,15 @@ func (an *Analysis) handleType(typ types.Type, ctx context) Type {
 		return v
 	}
 
+	// an alias shares the node of the type it denotes (which may already have been reached directly)
+	if alias, isAlias := typ.(*types.Alias); isAlias {
+		type_ := an.handleType(types.Unalias(alias), ctx)
+		if !ctx.isInExtern {
+			an.Types[typ] = type_
+		}
+		return type_
+	}
+
 	// resolve the type
 	type_ := an.createType(typ, ctx)
 	// register it if not extern
